@@ -172,6 +172,41 @@ pub fn run_build(ctx: &Ctx) -> Report {
         check_variants(&u, (la, s, r), &menus, l, &coll);
     });
     rep.add_space(&format!("{}:E4.variants", tag), json!({"triples": n, "variant_lists": 3}), &st2);
+    // every real-world variant word (registered IANA variants: romanisations, orthographies, ...),
+    // alone and beside another variant, on every language listed right-to-left or multi-direction
+    // (and a few others) x {no script, each listed script, an unlisted script} x {no region, a region}:
+    // a change that keys the direction on a particular variant lives here
+    {
+        let mut words: Vec<Variant> = crate::spaces::dictionary_words().iter().filter_map(|w| Variant::from_bytes(w.as_bytes()).ok()).collect();
+        words.extend(crate::spaces::ORDER_VARIANTS.iter().filter_map(|w| Variant::from_bytes(w.as_bytes()).ok()));
+        words.sort();
+        words.dedup();
+        let langs2: Vec<u16> = (0..u.langs.len() as u16).filter(|i| !ex.lang_never_rtl[*i as usize] || i % 512 == 1).collect();
+        let scripts2: Vec<u16> = (0..u.scripts.len() as u16).filter(|i| *i == 0 || ex.script_dir[*i as usize].is_some() || i % 40 == 7).collect();
+        let regions2: Vec<u16> = vec![0, 1.min(u.regions.len() as u16 - 1), (u.regions.len() / 2) as u16];
+        let nw = words.len() as u64;
+        let n2 = langs2.len() as u64 * scripts2.len() as u64 * regions2.len() as u64;
+        let other: Variant = "valencia".parse().unwrap();
+        let st3 = par_range(ctx, "E4.variant_words", n2, 64, &|idx, l| {
+            let r = regions2[(idx % regions2.len() as u64) as usize];
+            let sc = scripts2[((idx / regions2.len() as u64) % scripts2.len() as u64) as usize];
+            let la = langs2[(idx / (regions2.len() as u64 * scripts2.len() as u64)) as usize];
+            let x = u.lib((la, sc, r));
+            let base = LanguageIdentifier::from_parts(x.0, x.1, x.2, &[]).character_direction();
+            for w in &words {
+                for vs in [vec![*w], vec![*w, other]] {
+                    l.counters[0] += 1;
+                    let d = LanguageIdentifier::from_parts(x.0, x.1, x.2, &vs).character_direction();
+                    if d != base {
+                        dviol(&coll, l, "c14.variants", format!("the variant {} changes the direction", w), &format!("{}-{}", u.lk.show((la, sc, r)), vs.iter().map(|v| v.as_str()).collect::<Vec<_>>().join("-")), format!("{:?}", base), format!("{:?}", d));
+                    }
+                }
+            }
+        });
+        let mut stx = st3;
+        stx.inputs = stx.local.counters[0];
+        rep.add_space(&format!("{}:E4.variant_words", tag), json!({"triples": n2, "variant_words": nw, "lists_per_word": 2}), &stx);
+    }
     // histories of two calls over all layout locales, on one thread: the answer for y must not
     // depend on the call made before it
     {
